@@ -34,20 +34,26 @@ WZones ==                         \* zone id -> model; names are the TZif design
 \* DST begins on Julian day 87 (28 March) at 04:03:03 local standard time = 01:00:00 UTC = T0
 RuleText == "AAA-3:03:03BBB-4:04:04,J87/4:03:03,J300/0"
 
-\* TZ values: the real string is  (":" if colon) ++ (<zone directory of the run> ++ "/" if abs) ++ text
+\* TZ values: the real string is  (":" if colon) ++ (<zone directory of the run> ++ "/" if abs) ++ text, with one ASCII blank
+\* in front of it (pad = "pre") or behind it (pad = "post"): a blank-padded path is a DIFFERENT string, it names no file
 WVal ==
-  [ absA         |-> [colon |-> FALSE, abs |-> TRUE,  text |-> "A.tzif"],          \* absolute file path
-    colonB       |-> [colon |-> TRUE,  abs |-> TRUE,  text |-> "B.tzif"],          \* `:` + absolute path
-    name         |-> [colon |-> FALSE, abs |-> FALSE, text |-> "Europe/Berlin"],   \* name under the zoneinfo directories
-    rule         |-> [colon |-> FALSE, abs |-> FALSE, text |-> RuleText],          \* POSIX rule
-    empty        |-> [colon |-> FALSE, abs |-> FALSE, text |-> ""],                \* empty
-    garbage      |-> [colon |-> FALSE, abs |-> FALSE, text |-> "garbage!!"],       \* neither a file nor a rule
-    colonName    |-> [colon |-> TRUE,  abs |-> FALSE, text |-> "Europe/Berlin"],
-    fixedF       |-> [colon |-> FALSE, abs |-> TRUE,  text |-> "F.tzif"],
-    colonMissing |-> [colon |-> TRUE,  abs |-> TRUE,  text |-> "missing.tzif"],    \* unreadable
-    missing      |-> [colon |-> FALSE, abs |-> TRUE,  text |-> "missing.tzif"],    \* unreadable, and not a rule either
-    badfile      |-> [colon |-> FALSE, abs |-> TRUE,  text |-> "G.tzif"],          \* readable, not a TZif file
-    colonRule    |-> [colon |-> TRUE,  abs |-> FALSE, text |-> "AAA-3:03:03"] ]    \* `:` announces a file, never a rule
+  [ absA         |-> [pad |-> "", colon |-> FALSE, abs |-> TRUE,  text |-> "A.tzif"],          \* absolute file path
+    colonB       |-> [pad |-> "", colon |-> TRUE,  abs |-> TRUE,  text |-> "B.tzif"],          \* `:` + absolute path
+    name         |-> [pad |-> "", colon |-> FALSE, abs |-> FALSE, text |-> "Europe/Berlin"],   \* name under the zoneinfo directories
+    rule         |-> [pad |-> "", colon |-> FALSE, abs |-> FALSE, text |-> RuleText],          \* POSIX rule
+    empty        |-> [pad |-> "", colon |-> FALSE, abs |-> FALSE, text |-> ""],                \* empty
+    garbage      |-> [pad |-> "", colon |-> FALSE, abs |-> FALSE, text |-> "garbage!!"],       \* neither a file nor a rule
+    colonName    |-> [pad |-> "", colon |-> TRUE,  abs |-> FALSE, text |-> "Europe/Berlin"],
+    fixedF       |-> [pad |-> "", colon |-> FALSE, abs |-> TRUE,  text |-> "F.tzif"],
+    colonMissing |-> [pad |-> "", colon |-> TRUE,  abs |-> TRUE,  text |-> "missing.tzif"],    \* unreadable
+    missing      |-> [pad |-> "", colon |-> FALSE, abs |-> TRUE,  text |-> "missing.tzif"],    \* unreadable, and not a rule either
+    badfile      |-> [pad |-> "", colon |-> FALSE, abs |-> TRUE,  text |-> "G.tzif"],          \* readable, not a TZif file
+    colonRule    |-> [pad |-> "", colon |-> TRUE,  abs |-> FALSE, text |-> "AAA-3:03:03"],     \* `:` announces a file, never a rule
+    colonFullRule |-> [pad |-> "", colon |-> TRUE, abs |-> FALSE, text |-> RuleText],           \* ... not even the text that IS the value `rule`
+    preAbsA      |-> [pad |-> "pre",  colon |-> FALSE, abs |-> TRUE,  text |-> "A.tzif"],       \* " /dir/A.tzif": no such file, no rule
+    postAbsA     |-> [pad |-> "post", colon |-> FALSE, abs |-> TRUE,  text |-> "A.tzif"],       \* "/dir/A.tzif "
+    preColonB    |-> [pad |-> "pre",  colon |-> TRUE,  abs |-> TRUE,  text |-> "B.tzif"],       \* " :/dir/B.tzif"
+    blank        |-> [pad |-> "pre",  colon |-> FALSE, abs |-> FALSE, text |-> ""] ]            \* " ": not empty, names nothing
 
 WGarbage == "GARBAGE"
 WAbsFiles == [ x \in {"A.tzif", "B.tzif", "F.tzif", "G.tzif"} |->
